@@ -266,6 +266,12 @@ func SolveAll(obs []*Obligation, workers int, timeoutMs int, solvers []string, c
 				want := ob.Kind == "assert" || true
 				r, m, who, secs := s.checkScript(ob.Script, ob.Vars, timeoutMs, want)
 				ob.Result, ob.Model, ob.Solver, ob.Secs = r, m, who, secs
+				if r == Unknown && len(ob.Asserts) > 0 {
+					// the solvers could not decide: look for a concrete model by evaluation (counterexample finder only)
+					if pm := Probe(ob, 400, int64(len(ob.Script))); pm != nil {
+						ob.Result, ob.Model, ob.Solver = Sat, pm, "probe"
+					}
+				}
 				if crossCheck && r == Unsat && ob.Kind == "assert" && len(solvers) > 1 {
 					// ask a different solver to confirm
 					var others []string
